@@ -67,22 +67,97 @@ class watchdog:
         return False
 
 
-def _worker_init():
+class Crash:
+    """a worker process died (signal / abnormal exit) while running `task`."""
+
+    def __init__(self, task, exitcode, detail=''):
+        self.task, self.exitcode, self.detail = task, exitcode, detail
+
+    def __repr__(self):
+        return f'Crash(task={self.task!r}, exitcode={self.exitcode}, {self.detail})'
+
+
+class WorkerError(Exception):
+    pass
+
+
+def _child(func, item, conn):
     install_watchdog()
+    try:
+        conn.send(('ok', func(item)))
+    except BaseException:
+        conn.send(('err', traceback.format_exc()))
+    finally:
+        conn.close()
+        sys.stdout.flush()
+        sys.stderr.flush()
+        os._exit(0)
 
 
-def pmap(func, items, jobs: int, chunksize: int = 1):
-    """ordered parallel map over a fork pool (workers inherit the bound flipjump)."""
+def pmap(func, items, jobs: int, chunksize: int = 1, on_crash='raise', task_timeout=None):
+    """ordered parallel map; every task runs in its own forked child (children inherit the bound
+    flipjump). a child that dies abnormally is noticed (no hang): on_crash='yield' yields a Crash
+    object in its place, 'raise' raises WorkerError. task_timeout (s) kills a stuck child."""
+    import multiprocessing.connection as mpc
     items = list(items)
-    if jobs <= 1 or len(items) <= 1:
+    if jobs <= 1 and on_crash == 'raise' and task_timeout is None:
         install_watchdog()
         for it in items:
             yield func(it)
         return
     ctx = multiprocessing.get_context('fork')
-    with ctx.Pool(min(jobs, len(items)), initializer=_worker_init) as pool:
-        for res in pool.imap(func, items, chunksize):
-            yield res
+    pending = list(enumerate(items))
+    pending.reverse()
+    running, results, nxt = {}, {}, 0
+    try:
+        while pending or running or nxt in results:
+            while nxt in results:
+                res = results.pop(nxt)
+                nxt += 1
+                if isinstance(res, Crash) and on_crash == 'raise':
+                    raise WorkerError(repr(res))
+                yield res
+            while pending and len(running) < max(1, jobs):
+                i, it = pending.pop()
+                r, w = ctx.Pipe(False)
+                sys.stdout.flush()
+                sys.stderr.flush()
+                p = ctx.Process(target=_child, args=(func, it, w))
+                p.start()
+                w.close()
+                running[i] = (p, r, it, time.time())
+            if not running:
+                continue
+            ready = mpc.wait([v[1] for v in running.values()], timeout=1.0)
+            now = time.time()
+            for i, (p, r, it, t0) in list(running.items()):
+                if r in ready:
+                    try:
+                        kind, val = r.recv()
+                    except (EOFError, OSError):
+                        p.join(5)
+                        kind, val = 'died', p.exitcode
+                    r.close()
+                    p.join(5)
+                    del running[i]
+                    if kind == 'ok':
+                        results[i] = val
+                    elif kind == 'err':
+                        raise WorkerError(f'worker raised on task {it!r}:\n{val}')
+                    else:
+                        results[i] = Crash(it, val)
+                elif task_timeout is not None and now - t0 > task_timeout:
+                    p.kill()
+                    p.join(5)
+                    r.close()
+                    del running[i]
+                    results[i] = Crash(it, None, f'killed after {task_timeout}s')
+    finally:
+        for p, r, it, t0 in running.values():
+            try:
+                p.kill()
+            except Exception:
+                pass
 
 
 def load_findings(prop: str):
@@ -138,6 +213,8 @@ class Run:
         self.notes = []
         REPLAYS.mkdir(exist_ok=True)
         EVIDENCE.mkdir(exist_ok=True)
+        from .enginecheck import scratch
+        scratch()  # create the run's scratch root in the parent, so it is removed at exit
 
     # ---- violations ---------------------------------------------------------------
     def match_known(self, record: dict):
